@@ -11,6 +11,8 @@
    uncertain-number bookkeeping the estimators do: the checks of UncertainReal._elementary,
    UncertainComplex._elementary (incl. the write to `correlation` of an independent Leaf that
    raises AttributeError), set_correlation_real (|r| > 1 -> ValueError), the ensembles.
+   (Since the fixes C12-estimate-complex-r0 / C12-multi-collinear-valueerror the source passes r = None for
+   independent components and removes rounding excess of r through _clip_r = g_clip_r.)
 
    What is observed of a returned uncertain number: x, u, df, independent of every real
    component, and get_correlation of every pair of components.  The correlation registers are
@@ -157,7 +159,7 @@ Section TypeAEst.
   (* lib.set_correlation_real on two distinct elementary numbers *)
   Definition set_corr (ind1 ind2 : bool) (r : V) : res V :=
     if ind1 || ind2 then Err RuntimeError
-    else if ltb N one (nabs N r) then Err ValueError
+    else if negb (leb N (nabs N r) one) then Err ValueError
     else Ok r.
 
   (* ---------- estimate ---------- *)
@@ -167,15 +169,21 @@ Section TypeAEst.
     u <- su_real KFloat l (Some mu) ;;
     elementary mu u df (g_est_real_indep N).
 
-  Definition estimate_cplx (l : list (V * V)) : res (leaf V * leaf V * V) :=
+  Definition estimate_cplx (l : list (V * V)) : res (leaf V * leaf V * option V) :=
     df <- g_est_df N (len l) ;;
     mu <- mean_cplx l ;;
     '(ure, uim, r) <- su_cplx l (Some mu) ;;
     let ind := g_est_cplx_indep N r in
     re <- elementary (fst mu) ure df ind ;;
     im <- elementary (snd mu) uim df ind ;;
-    (* `r is not None`: real._node.correlation[...] = r ; an independent Leaf has no such attribute *)
-    if ind then Err AttributeError else Ok (re, im, r).
+    (* UncertainComplex._elementary: `if r is not None: real._node.correlation[...] = r`; an
+       independent Leaf has no such attribute (AttributeError).  The repaired estimate passes None
+       exactly when it declares the components independent, so that branch is dead -- it stays
+       in the model because it is what the callee does. *)
+    match g_est_cplx_rarg N r with
+    | Some r' => if ind then Err AttributeError else Ok (re, im, Some r')
+    | None => Ok (re, im, None)
+    end.
 
   (* ---------- estimate_digitized ---------- *)
   Definition estimate_digitized (l : list V) (delta : V) (truncate : bool) : res (leaf V) :=
@@ -329,7 +337,8 @@ Section TypeAEst.
     | CSuC l mu => lift (su_cplx l mu) (fun '(a, b, r) => ONums [a; b; r])
     | CVcc l mu => lift (vcc l mu) (fun '(a, b, c, d) => ONums [a; b; c; d])
     | CEst l => lift (estimate_real l) (fun lf => OLeaves [lf] [] [[]])
-    | CEstC l => lift (estimate_cplx l) (fun '(re, im, r) => OLeaves [re; im] [[r]] [[]; []])
+    | CEstC l => lift (estimate_cplx l)
+                      (fun '(re, im, o) => OLeaves [re; im] [[match o with Some r => r | None => zero end]] [[]; []])
     | CDig l d t => lift (estimate_digitized l d t) (fun lf => OLeaves [lf] [] [[]])
     | CMulti k ls => lift (multi_estimate_real k ls) (fun '(lv, rows) => OLeaves lv (corr_obs rows) (ens_all lv))
     | CMultiC ls => lift (multi_estimate_complex ls) (fun '(lv, rows) => OLeaves lv (corr_obs rows) (ens_all lv))
